@@ -59,10 +59,12 @@ Theorem C07_roundtrip_explicit : forall fo A g tr start,
   (forall k, In k (node_keys g) -> name_ok fo (name_of g k) = true) ->
   (forall k, parse_graph_base_node fo (name_of g k) = Ok (A k)) ->
   exists T r, write_graph_full false (fun _ => true) g tr = Ok r /\ r_visit r = worder T
+    /\ (rkey T = start /\ dfs_edges g start = Ok (redges T))
     /\ NoDup (rkeys T) /\ (forall x, In x (rkeys T) <-> In x (node_keys g))
     /\ let fl := the_flat (esym_of g) (rsym_of g tr) T tr in
        let L := the_log (esym_of g) (rsym_of g tr) A T tr in
        read_cgsmiles fo (S "{" ++ r_text r ++ S "}") = Ok (replay L gempty)
+       /\ denote_lin fo (the_items (name_of g) (esym_of g) (rsym_of g tr) T tr) = Ok (replay L gempty)
        /\ log_wf [] L /\ log_nodes L = map f_new fl
        /\ (forall rc, In rc fl -> In (ONode (f_new rc) (A (f_old rc))) L)
        /\ (forall r1 r2, In r1 fl -> In r2 fl -> eo (replay L gempty) (f_new r1) (f_new r2) = eo g (f_old r1) (f_old r2))
@@ -88,7 +90,7 @@ Proof.
     - now apply (Hc (fst e)). }
   assert (C3 : forall e te, In e tr -> In te (redges T) -> same_edge e te = false) by (intros e te; rewrite <- Etree; apply R3).
   destruct (machine_full fo (name_of g) (esym_of g) (rsym_of g tr) A T tr Hparse B3 C1 R2 C3) as (M1 & M2 & M3).
-  exists T, r. split; [exact W|]. split; [exact Wv|]. split; [exact B3|]. split; [exact A5'|]. cbv zeta.
+  exists T, r. split; [exact W|]. split; [exact Wv|]. split; [exact (conj B1 B2)|]. split; [exact B3|]. split; [exact A5'|]. cbv zeta.
   set (fl := the_flat (esym_of g) (rsym_of g tr) T tr) in *.
   set (L := the_log (esym_of g) (rsym_of g tr) A T tr) in *.
   assert (Gs : forall u v, eo g u v = eo g v u) by (apply wf_eo_sym; exact Hwf).
@@ -97,7 +99,7 @@ Proof.
   assert (Gr : forall ri e, In (ri, e) (ring_items_of tr) -> eo g (fst e) (snd e) = Some (oord (rsym_of g tr ri))).
   { intros ri e He. unfold rsym_of. unfold ring_items_of in He. apply in_combine_seq in He as [H1 H2]. rewrite H2.
     apply plain_eo; [exact Hp|]. apply (R1 e). now apply nth_error_In in H2. }
-  split; [rewrite R; exact M1|]. split; [exact M2|]. split; [exact (i_nodes _ _ _ _ _ M3)|]. split.
+  split; [rewrite R; exact M1|]. split; [exact M1|]. split; [exact M2|]. split; [exact (i_nodes _ _ _ _ _ M3)|]. split.
   { intros rc Hrc. unfold L, the_log. apply xlog_node. exact Hrc. }
   split.
   { apply (iso_orders (esym_of g) (rsym_of g tr) A T tr g B3 C1 C3); try assumption.
@@ -204,7 +206,7 @@ Proof.
   set (A := fun k => match parse_graph_base_node no_float (name_of g k) with Ok a => a | Err _ => [] end).
   assert (HA : forall k, In k (node_keys g) -> A k = base_attrs (name_of g k)).
   { intros k Hk. unfold A. now rewrite (valid_name_parse no_float _ (wf_valid_names g k Hwf Hk)). }
-  destruct (C07_roundtrip_explicit no_float A g tr start Hp Hcon Hmin R1 R2 R3 R4) as [T [r (W & Wv & B3 & A5 & X)]].
+  destruct (C07_roundtrip_explicit no_float A g tr start Hp Hcon Hmin R1 R2 R3 R4) as [T [r (W & Wv & _ & B3 & A5 & X)]].
   { intros k Hk. apply valid_name_ok. now apply wf_valid_names. }
   { intros k. unfold A. destruct (in_dec Z.eq_dec k (node_keys g)) as [Hk|Hk].
     - now rewrite (valid_name_parse no_float _ (wf_valid_names g k Hwf Hk)).
@@ -212,7 +214,7 @@ Proof.
   cbv zeta in X.
   set (fl := the_flat (esym_of g) (rsym_of g tr) T tr) in *.
   set (L := the_log (esym_of g) (rsym_of g tr) A T tr) in *.
-  destruct X as (R & M2 & Nn & Nd & Hiso & Hedge).
+  destruct X as (R & _ & M2 & Nn & Nd & Hiso & Hedge).
   set (h := replay L gempty) in *.
   destruct (replay_struct L gempty [] GWo_empty gempty_nodes M2) as [Gh Kh]. fold h in Gh, Kh. cbn [node_keys gempty map app] in Kh.
   assert (Hhw : graph_wf h = true) by now apply GWo_bool.
